@@ -634,18 +634,25 @@ Proof.
   destruct (children_listing _ Hf p Hp) as [H1 H2]. repeat split; auto; apply H2.
 Qed.
 
-(** ** The adoption corner (DESIGN.md section 4, further observations):
-    SpawnChild with an id that is taken records the incumbent in the caller's
-    map although no child was started; the incumbent does not know the caller
-    as its parent, and stays listed after it has stopped. *)
-Lemma adoption_witness :
+(** ** SpawnChild under an id that is taken.  Since D21 it changes nothing: the
+    incumbent is not recorded in the caller's map.  Before (children.Set was
+    unconditional) the incumbent was adopted: listed by the caller although
+    no child was started, not knowing the caller as its parent, and listed
+    still after it had stopped. *)
+Lemma duplicate_spawn_noop :
   let h := [BSpawnTop 1; BSpawnTop 5; BSpawnChild 1 5] in
   ~ hist_fresh s_init h /\
-  children (brun h) 1 = [5] /\ parent (brun h) 5 = None /\
-  children (brun (h ++ [BStopped 5])) 1 = [5] /\ b_reg (brun (h ++ [BStopped 5])) 5 = None.
+  children (brun h) 1 = [] /\ parent (brun h) 5 = None /\
+  children (brun (h ++ [BStopped 5])) 1 = [].
 Proof.
   split; [|vm_compute; auto]. cbn. intros (_ & _ & (_ & H) & _). apply H. auto.
 Qed.
+
+Lemma adoption_witness :
+  let h := [BSpawnTop 1; BSpawnTop 5; BSpawnChild 1 5] in
+  children (brun_pinned h) 1 = [5] /\ parent (brun_pinned h) 5 = None /\
+  children (brun_pinned (h ++ [BStopped 5])) 1 = [5] /\ b_reg (brun_pinned (h ++ [BStopped 5])) 5 = None.
+Proof. vm_compute. auto. Qed.
 
 (** the "signalled last" predicate holds of the model's run too: the stop
     context of the poisoned actor is done after every actor of the tree has
